@@ -31,6 +31,12 @@ func (c14) Gen(tier string, seed int64, emit func([]Ev)) {
 		if ns < 0 {
 			pmt = limitPMT(r, -ns-1, []int{1021, 1021, 1020, 1000 + r.Intn(22)}[r.Intn(4)])
 		}
+		if ns > 0 && si%4 == 1 {
+			// the section ends in 0xFF bytes and its CRC_32 is all ones, all zeros or stuffing- / sync-like: section bytes, not stuffing
+			if q, ok := ffTailPMT(r, pmt); ok {
+				pmt = q
+			}
+		}
 		sec := pmtSection(pmt)
 		var pids []int
 		for _, s := range pmt.Streams {
